@@ -194,7 +194,9 @@ def run_history(ld, ad, val, deserialized, hist):
     val = uniquify(ld.program.node, ad.env, val, f"q{ld.program.pid}x{_counter[0]}")
     try:
         inst = Instance(ld, ad, val, deserialized)
-    except ValueError:
+    except loader.HarnessError:
+        raise
+    except Exception:  # noqa: BLE001 - an instance that cannot be built / serialized is C01's concern, not C19's
         return "skip"
     for i, op in enumerate(hist):
         what = apply(inst, tuple(op))
